@@ -190,3 +190,198 @@ Proof.
   pose proof (pnumber_int rf z rest F) as P. rewrite E in *. cbn [app pval skip_ign].
   rewrite W, C, L, O, Q, NS, A. exact P.
 Qed.
+
+(* --------------------------------------------------------------- JSON ---- *)
+Lemma str_eqb_eq a b : str_eqb a b = true <-> a = b.
+Proof.
+  unfold str_eqb, list_eqb. revert b. induction a as [|x a IH]; intros [|y b]; cbn [forallb2];
+    try (split; [discriminate|discriminate]); [tauto|].
+  rewrite andb_true_iff, N.eqb_eq, IH. split; [intros [-> ->]; reflexivity|intro E; inversion E; auto].
+Qed.
+
+Lemma str_eqb_refl a : str_eqb a a = true.
+Proof. apply str_eqb_eq. reflexivity. Qed.
+
+Lemma str_eqb_false a b : str_eqb a b = false <-> a <> b.
+Proof.
+  split.
+  - intros H E. apply str_eqb_eq in E. congruence.
+  - intro H. destruct (str_eqb a b) eqn:E; [apply str_eqb_eq in E; contradiction|reflexivity].
+Qed.
+
+Section CvalInd.
+  Variable P : cval -> Prop.
+  Hypothesis Hnull : P CNull.
+  Hypothesis Hint : forall z, P (CInt z).
+  Hypothesis Hfloat : forall t, P (CFloat t).
+  Hypothesis Hstr : forall s, P (CStr s).
+  Hypothesis Hbool : forall b, P (CBool b).
+  Hypothesis Henum : forall n, P (CEnum n).
+  Hypothesis Hlist : forall l, Forall P l -> P (CList l).
+  Hypothesis Hobj : forall l, Forall (fun kv => P (snd kv)) l -> P (CObj l).
+
+  Fixpoint cval_ind' (v : cval) : P v :=
+    match v with
+    | CNull => Hnull
+    | CInt z => Hint z
+    | CFloat t => Hfloat t
+    | CStr s => Hstr s
+    | CBool b => Hbool b
+    | CEnum n => Henum n
+    | CList l =>
+        Hlist l ((fix go (l : list cval) : Forall P l :=
+                    match l with
+                    | [] => Forall_nil _
+                    | x :: r => Forall_cons x (cval_ind' x) (go r)
+                    end) l)
+    | CObj l =>
+        Hobj l ((fix go (l : list (str * cval)) : Forall (fun kv => P (snd kv)) l :=
+                   match l with
+                   | [] => Forall_nil _
+                   | (k, x) :: r => Forall_cons (k, x) (cval_ind' x) (go r)
+                   end) l)
+    end.
+End CvalInd.
+
+Lemma sassoc_map {A B} (g : A -> B) k (l : list (str * A)) :
+  sassoc k (map (fun kv => (fst kv, g (snd kv))) l) = option_map g (sassoc k l).
+Proof.
+  induction l as [|[k' a] l IH]; [reflexivity|]. cbn [map sassoc fst snd].
+  destruct (str_eqb k k'); [reflexivity|exact IH].
+Qed.
+
+Lemma map_insert_fresh {A} k (v : A) m : sassoc k m = None -> map_insert k v m = m ++ [(k, v)].
+Proof.
+  induction m as [|[k' v'] m IH]; intro H; [reflexivity|]. cbn [sassoc] in H. cbn [map_insert].
+  destruct (str_eqb k k'); [discriminate|]. rewrite (IH H). reflexivity.
+Qed.
+
+Lemma sassoc_snoc {A} k k2 (v : A) m :
+  sassoc k m = None -> str_eqb k k2 = false -> sassoc k (m ++ [(k2, v)]) = None.
+Proof.
+  induction m as [|[k' v'] m IH]; intros H E; cbn [app sassoc] in *.
+  - rewrite E. reflexivity.
+  - destruct (str_eqb k k'); [discriminate|]. apply IH; assumption.
+Qed.
+
+Lemma sassoc_none_neq {A} k (l : list (str * A)) k2 a :
+  sassoc k l = None -> In (k2, a) l -> str_eqb k k2 = false.
+Proof.
+  induction l as [|[k' v'] l IH]; intros H I; [destruct I|]. cbn [sassoc] in H.
+  destruct (str_eqb k k') eqn:E; [discriminate|]. destruct I as [I|I]; [inversion I; subst; exact E|].
+  apply IH; assumption.
+Qed.
+
+Lemma sassoc_in_nodup {A} (l : list (str * A)) k a :
+  nodup_keys l = true -> In (k, a) l -> sassoc k l = Some a.
+Proof.
+  induction l as [|[k0 a0] l IH]; intros N I; [destruct I|]. cbn [nodup_keys] in N. cbn [sassoc].
+  destruct (sassoc k0 l) eqn:S0; [discriminate|].
+  destruct I as [I|I].
+  - inversion I; subst. rewrite str_eqb_refl. reflexivity.
+  - pose proof (sassoc_none_neq k0 l k a S0 I) as E.
+    destruct (str_eqb k k0) eqn:E2.
+    + apply str_eqb_eq in E2. subst. rewrite str_eqb_refl in E. discriminate.
+    + apply IH; assumption.
+Qed.
+
+(* Deserialize's map.insert loop over distinct keys rebuilds the list *)
+Lemma fold_insert (g : json -> cval) : forall (l : list (str * json)) acc,
+  nodup_keys l = true ->
+  (forall k a, In (k, a) l -> sassoc k acc = None) ->
+  fold_left (fun m kv => map_insert (fst kv) (g (snd kv)) m) l acc =
+  acc ++ map (fun kv => (fst kv, g (snd kv))) l.
+Proof.
+  induction l as [|[k a] l IH]; intros acc N F; [cbn; rewrite app_nil_r; reflexivity|].
+  cbn [nodup_keys] in N. destruct (sassoc k l) eqn:S0; [discriminate|].
+  cbn [fold_left map fst snd].
+  rewrite (map_insert_fresh k (g a) acc (F k a (or_introl eq_refl))).
+  rewrite IH; [rewrite <- app_assoc; reflexivity|exact N|].
+  intros k2 a2 I. apply sassoc_snoc; [apply (F k2 a2); right; exact I|].
+  pose proof (sassoc_none_neq k l k2 a2 S0 I) as E.
+  destruct (str_eqb k2 k) eqn:E2; [|reflexivity].
+  apply str_eqb_eq in E2. subst. rewrite str_eqb_refl in E. discriminate.
+Qed.
+
+Lemma nodup_keys_map {A B} (g : A -> B) (l : list (str * A)) :
+  nodup_keys (map (fun kv => (fst kv, g (snd kv))) l) = nodup_keys l.
+Proof.
+  induction l as [|[k a] l IH]; [reflexivity|]. cbn [map nodup_keys fst snd].
+  rewrite sassoc_map. destruct (sassoc k l); [reflexivity|exact IH].
+Qed.
+
+(* Serialize then Deserialize over the serde_json data model *)
+Lemma json_tree_roundtrip v :
+  wf v = true -> from_json (fun t => t) (to_json v) = enum_to_str v.
+Proof.
+  induction v using cval_ind'; intro W; try reflexivity.
+  - cbn [to_json from_json enum_to_str]. f_equal. rewrite map_map.
+    cbn [wf] in W. induction l as [|x l IHl]; [reflexivity|].
+    cbn [forallb] in W. apply andb_true_iff in W. destruct W as [W1 W2].
+    inversion H; subst. cbn [map]. f_equal; [auto|apply IHl; assumption].
+  - cbn [to_json from_json enum_to_str]. f_equal.
+    cbn [wf] in W. apply andb_true_iff in W. destruct W as [W1 W2].
+    rewrite fold_insert; [|rewrite nodup_keys_map; exact W2|reflexivity].
+    cbn [app]. rewrite map_map. cbn [fst snd].
+    clear W2. induction l as [|[k x] l IHl]; [reflexivity|].
+    cbn [forallb fst snd] in W1. apply andb_true_iff in W1. destruct W1 as [W1 W3].
+    apply andb_true_iff in W1. destruct W1 as [_ W1].
+    inversion H; subst. cbn [map fst snd]. f_equal; [f_equal; auto|apply IHl; assumption].
+Qed.
+
+(* ConstValue's equality holds between a value and its JSON image *)
+Lemma veq_enum_to_str v : wf v = true -> veq false v (enum_to_str v) = true.
+Proof.
+  induction v using cval_ind'; intro W; cbn [enum_to_str veq].
+  - reflexivity.
+  - apply Z.eqb_refl.
+  - apply str_eqb_refl.
+  - apply str_eqb_refl.
+  - destruct b; reflexivity.
+  - cbn. apply str_eqb_refl.
+  - cbn [wf] in W. induction l as [|x l IHl]; [reflexivity|].
+    cbn [forallb] in W. apply andb_true_iff in W. destruct W as [W1 W2].
+    inversion H; subst. cbn [map]. rewrite (H2 W1). cbn [andb]. apply IHl; assumption.
+  - cbn [wf] in W. apply andb_true_iff in W. destruct W as [W1 W2].
+    rewrite map_length, Nat.eqb_refl. cbn [andb].
+    assert (G : forall x', (forall k a, In (k, a) x' -> In (k, a) l) ->
+                (fix go (x : list (str * cval)) : bool :=
+                   match x with
+                   | [] => true
+                   | (k, a) :: x'0 =>
+                       match sassoc k (map (fun kv => (fst kv, enum_to_str (snd kv))) l) with
+                       | Some b => veq false a b
+                       | None => false
+                       end && go x'0
+                   end) x' = true).
+    { induction x' as [|[k a] x' IHx]; intro Sub; [reflexivity|].
+      rewrite sassoc_map, (sassoc_in_nodup l k a W2 (Sub k a (or_introl eq_refl))). cbn [option_map].
+      assert (Pa : veq false a (enum_to_str a) = true).
+      { pose proof (Sub k a (or_introl eq_refl)) as I.
+        rewrite Forall_forall in H. apply (H (k, a) I).
+        rewrite forallb_forall in W1. specialize (W1 (k, a) I). cbn [fst snd] in W1.
+        apply andb_true_iff in W1. tauto. }
+      rewrite Pa. cbn [andb]. apply IHx. intros k2 a2 I. apply Sub. right. exact I. }
+    apply G. auto.
+Qed.
+
+Lemma json_roundtrip v :
+  wf v = true -> veq false v (from_json (fun t => t) (to_json v)) = true.
+Proof. intro W. rewrite (json_tree_roundtrip v W). apply veq_enum_to_str. exact W. Qed.
+
+Lemma enum_prefix_refuted :
+  let v := CList [CEnum [110; 117; 108; 108; 97; 98; 108; 101]] in
+  wf v = true /\ read_spec (display v) = Some v /\
+  read_impl [] (display v) = Some (CList [CNull; CEnum [97; 98; 108; 101]]) /\
+  read_impl [] (display (CEnum [110; 117; 108; 108; 97; 98; 108; 101])) = None.
+Proof. vm_compute. repeat split. Qed.
+
+(* non-vacuity: a nested well-formed value outside every class, through both
+   round trips, evaluated inside Coq *)
+Lemma value_nonvacuous :
+  let v := CObj [([97], CList [CInt (-42); CFloat [49; 46; 53]; CStr [34; 92; 9; 8; 233; 128512]; CEnum [82; 69; 68]]);
+                 ([98], CObj [([99], CBool true); ([100], CNull)])] in
+  wf v = true /\ has_bad_ctrl v = false /\ has_kw_enum v = false /\
+  read_spec (display v) = Some v /\ read_impl [] (display v) = Some v /\
+  veq false v (from_json (fun t => t) (to_json v)) = true.
+Proof. vm_compute. repeat split. Qed.
